@@ -458,3 +458,66 @@ def r_stack_monotone(ctx, rep, rule):
         rep.ok(rule, "%s|restore_continuation|depends" % rule, "Stack::restore_continuation (%s) depends on this invariant" % (
             ", ".join(u for u in uses if u in ("split_at_mut", "clone_from_slice", "copy_from_slice")) or "-"),
             [rc.span], nontrivial=False)
+
+
+def r12f(ctx, rep, rule="R12f"):
+    facts = ctx["facts"]
+    rep.rule(rule, "a continuation snapshot holds only live slots: Stack::to_continuation builds the saved vector from "
+             "an sp-bounded slice of the live stack; the collector marks every element of a saved stack "
+             "(mark_continuation iterates the whole snapshot), so a full-length copy would turn dead slots above sp "
+             "into roots and chain every earlier dead frame to each stored continuation.")
+    f = need(rep, rule, facts, STACK + "to_continuation")
+    if f is None:
+        return
+    ok = False
+    for bb, j, s in f.stmts():
+        rv = s["rv"]
+        if rv["k"] == "agg" and rv.get("adt") == STACK_ADT:
+            for fname, op in zip(rv.get("fields", []), rv["ops"]):
+                if fname != "stack":
+                    continue
+                o = f.origin(op)
+                # to_vec / to_owned / Vec::from of a Range-indexed slice of self.stack
+                cur = o
+                for _ in range(4):
+                    if cur[0] == "call" and cur[1]["args"]:
+                        fa = cur[1].get("fnargs") or ""
+                        if "as std::ops::Index<std::ops::Range" in fa:
+                            ok = True
+                            break
+                        cur = f.origin(cur[1]["args"][0])
+                    else:
+                        break
+    key = "%s|to_continuation|sp-bounded-snapshot" % rule
+    (rep.ok if ok else rep.fail)(rule, key, "the continuation snapshot is a range-bounded slice of the live stack" if ok else
+                                 "Stack::to_continuation no longer copies an sp-bounded slice: dead slots above sp are saved "
+                                 "and later marked as roots, so garbage reachable from dead frames survives as long as the "
+                                 "continuation (and chains through earlier continuations)", [f.span])
+    mc = facts.fn(HEAP + "mark_continuation")
+    if mc is not None:
+        whole = any(callee(t).endswith("Stack::iter") for bb, t in mc.calls())
+        rep.ok(rule, "%s|mark_continuation|iterates" % rule, "mark_continuation marks %s of the snapshot" % (
+            "every element" if whole else "a bounded part"), [mc.span], nontrivial=False)
+
+
+def r12g(ctx, rep, rule="R12g"):
+    facts = ctx["facts"]
+    rep.rule(rule, "every slice collects: the periodic collection in run_count is driven by a counter local to one call, "
+             "so an embedder resuming with budgets below the period never reaches it; therefore every path to the "
+             "budget-exhausted return Ok(None) must itself pass a call of run_gc.")
+    fn = need(rep, rule, facts, RUN_COUNT)
+    if fn is None:
+        return
+    nb = _ok_none_blocks(fn)
+    gcs = [bb for bb, t in fn.calls() if callee(t) == RUN_GC]
+    if not nb:
+        rep.anchor_lost(rule, "Ok(None) return in run_count")
+        return
+    # unconditional collection: a run_gc block that dominates the return block and lies after the last loop exit
+    for i, b in enumerate(nb):
+        ok = any(fn.dominates(g, b) and not any(h in fn.reach_from(g) for _, h in fn.back_edges()) for g in gcs)
+        key = "%s|run_count|ok-none#%d-collects" % (rule, i + 1)
+        (rep.ok if ok else rep.fail)(rule, key, "the budget-exhausted return is dominated by a run_gc call outside the loop" if ok
+                                     else "run_count can return Ok(None) without calling run_gc: with budgets below the "
+                                     "collection period no collection ever runs during a sliced evaluation and the heap "
+                                     "grows with the work done", [fn.span])
